@@ -66,10 +66,17 @@ namespace rkcommon {
                     " INDEX_T to be unsigned char, short, int, uint, long,"
                     " or size_t.");
 
-      INDEX_T numBlocks = (nTasks + BLOCK_SIZE - 1) / BLOCK_SIZE;
+      if (!(nTasks > 0))
+        return;
+
+      // NOTE: no 'nTasks + BLOCK_SIZE' / 'begin + BLOCK_SIZE' here, both
+      //       overflow INDEX_T for counts close to its maximum
+      INDEX_T numBlocks = (nTasks - 1) / BLOCK_SIZE + 1;
       parallel_for(numBlocks, [&](INDEX_T blockID) {
         INDEX_T begin = blockID * (INDEX_T)BLOCK_SIZE;
-        INDEX_T end   = std::min(begin + (INDEX_T)BLOCK_SIZE, nTasks);
+        INDEX_T end   = (nTasks - begin > (INDEX_T)BLOCK_SIZE)
+            ? begin + (INDEX_T)BLOCK_SIZE
+            : nTasks;
         fcn(begin, end);
       });
     }
